@@ -1,5 +1,7 @@
 (** Entry points of the L6 model for the extracted driver (commands 90-99). *)
-From RP2V Require Import Base.Prelude Base.Sorting Model.Types Model.Generated Model.Codec Model.MainRun Model.Imports.
+From RP2V Require Import Base.Prelude Base.Sorting Model.Types.
+From RP2V Require Import Model.Generated Model.Codec Model.MainRun.
+From RP2V Require Import Model.Imports.
 Open Scope Z_scope.
 
 Definition country_of_code (c : Z) : country :=
